@@ -113,6 +113,19 @@ def job_probe(_):
     return "probe", build_both("probe", read_tree(PROBE_DIR))
 
 
+def job_probe_nogc(_):
+    """the probe program built with -tags nogc (malloc instead of the collector) for a valgrind memcheck leg"""
+    d = w.sub("probe_nogc")
+    for rel, txt in read_tree(PROBE_DIR).items():
+        p = os.path.join(d, rel)
+        os.makedirs(os.path.dirname(p), exist_ok=True)
+        with open(p, "w") as f:
+            f.write(txt)
+    out = os.path.join(d, "p_llgo_nogc.bin")
+    rc, so, se = core.llgo_build(w, llgo, d, out, tags="nogc", timeout=3600)
+    return "probe_nogc", (out if rc == 0 else None, (so + se)[-3000:], rc)
+
+
 def job_probe_build(name):
     return name, build_both(name, read_tree(BUILD_PROBES[name][0]))
 
@@ -161,7 +174,7 @@ def job_prog(i):
     return "prog", res
 
 
-jobs = [(job_prog, i) for i in range(NPROG)] + [(job_probe, 0)] + [(job_probe_build, n) for n in sorted(BUILD_PROBES)]
+jobs = [(job_prog, i) for i in range(NPROG)] + [(job_probe, 0), (job_probe_nogc, 0)] + [(job_probe_build, n) for n in sorted(BUILD_PROBES)]
 results = core.pmap(lambda j: j[0](j[1]), jobs, workers=WORKERS)
 
 # ---------------------------------------------------------------- probes
@@ -235,6 +248,30 @@ for kind, b in results:
             chk.known(fid, "")
         else:
             chk.violation(kind, dict(read_tree(pdir), **{"build.log": b["llgo"][1]}), bad)
+
+# valgrind leg: the result buffer of reflect.Value.Call (finding C15-call-return-overflow) overflows an 8-byte cell;
+# whether a neighbour is hit depends on the heap state, so the deterministic witness is memcheck on a nogc build
+for kind, b in results:
+    if kind != "probe_nogc":
+        continue
+    fid = "C15-call-return-overflow"
+    if b[0] is None or not os.path.exists("/usr/bin/valgrind"):
+        chk.inconclusive += 1
+        chk.cov["valgrind_leg"] = "not run (%s)" % ("build rc=%s" % b[2] if b[0] is None else "valgrind missing")
+        continue
+    r = core.run_prog(["/usr/bin/valgrind", "--error-limit=no", "--num-callers=14", b[0], "call-ret-overflow"], timeout=900, quiesce=False)
+    chk.cov["evaluations"] += 1
+    if r.kind == "timeout":
+        chk.inconclusive += 1
+        continue
+    reports = [x for x in r.err.split("\n\n") if ("Invalid write" in x or "Invalid read" in x) and "reflect.Value.call" in x]
+    chk.cov["valgrind_leg"] = "%d invalid accesses below reflect.Value.call" % len(reports)
+    if reports:
+        if finding_status(fid) == "open":
+            chk.known(fid, "")
+        else:
+            chk.violation("probe-call-ret-overflow", {"valgrind.txt": r.err[-20000:]},
+                          "valgrind memcheck (nogc build of progs/c15_probe, unit call-ret-overflow): %d invalid accesses below reflect.Value.call, first:\n%s" % (len(reports), reports[0][:1500]))
 
 # ---------------------------------------------------------------- generated programs
 
